@@ -617,6 +617,34 @@ def trace_stats(results):
     return st
 
 
+# Client ids are whatever the server chooses (ircu: the socket number).  The model's small ids are moved, for some of the
+# histories, to other parts of the int range - across 1024, 4096 and 65536, and to the top of the range.
+ID_SHIFTS = [1016, 65528, 2147483647 - 40, 4090, 1020]
+
+
+def map_ids(e, off):
+    if not off:
+        return e
+    e = dict(e)
+    if "id" in e and e["id"] >= 0:
+        e["id"] += off
+    if e.get("e") == "X":
+        m = D._TAG.match(e.get("tag", ""))
+        if m:
+            e["tag"] = "%x_%s" % (int(m.group(1), 16) + off, m.group(2))
+    if "oid" in e and isinstance(e["oid"], int) and e["oid"] >= 0:
+        e["oid"] += off
+    return e
+
+
+def shift_ids(events, k, every=2):
+    """every `every`-th history (by its index k): the same history with its ids moved by one of ID_SHIFTS"""
+    if k % every != every - 1:
+        return events
+    off = ID_SHIFTS[(k // every) % len(ID_SHIFTS)]
+    return [map_ids(e, off) for e in events]
+
+
 def standard(ctx, plans, own, crash_is_own=False, need=()):
     """Model-check each plan, replay its behaviours on the real daemon, validate with TLC, report."""
     total_stats = {}
@@ -636,6 +664,8 @@ def standard(ctx, plans, own, crash_is_own=False, need=()):
             behaviours = plan.transform(ctx, behaviours, svcs)
         if plan.tail:
             behaviours = [b + probe_tail(b, svcs) for b in behaviours]
+        # every fourth history runs with ids from another part of the int range
+        behaviours = [shift_ids(b, i, every=4) for i, b in enumerate(behaviours)]
         t1 = time.time()
         timeout_on = plan.mc.get("timeout_on", True)
         res = replay(ctx, behaviours, svcs, timeout_on, tag=plan.name, **plan.opts)
